@@ -9,6 +9,7 @@ package metadata
 import (
 	"context"
 	"errors"
+	"sort"
 	"strings"
 
 	"github.com/VKCOM/statshouse/internal/sqlite"
@@ -142,4 +143,19 @@ func VerifClassify(err error) int {
 	default:
 		return 6
 	}
+}
+
+// VerifBroadcastJournal runs the handler's journal broadcast (what RawEditEntity does after a successful save).
+func VerifBroadcastJournal(h *Handler) { h.broadcastJournal() }
+
+// VerifJournalWaiterFroms returns the From of every journal long-poll client currently registered as waiting.
+func VerifJournalWaiterFroms(h *Handler) []int64 {
+	h.getJournalClients.mx.Lock()
+	defer h.getJournalClients.mx.Unlock()
+	out := make([]int64, 0, len(h.getJournalClients.clients))
+	for _, a := range h.getJournalClients.clients {
+		out = append(out, a.From)
+	}
+	sort.Slice(out, func(i, j int) bool { return out[i] < out[j] })
+	return out
 }
